@@ -172,7 +172,7 @@ def judge(sp, cfg, res, want=None):
         add(prop, "runner_panicked", "the runner panicked: %s" % msg[:200])
         for other in sorted(want or ()):
             # no clause of a registry-level property is observable in a run that dies of a panic nothing in the registry raised
-            if other != prop and other in ("C03", "C04", "C05", "C13", "C14", "C15", "C17", "C18"):
+            if other != prop and other in ("C03", "C04", "C05", "C13", "C14", "C15", "C17", "C18", "C19"):
                 add(other, "runner_panicked", "the runner panicked instead of running the selected benchmarks with their options: %s" % msg[:200])
         if "C05" in (want or {"C05"}) and "divide by zero" in msg:
             add("C05", "print_panic", "printing statistics panicked: %s" % msg[:200])
@@ -271,6 +271,9 @@ def judge(sp, cfg, res, want=None):
                 where = "%s (T=%d)" % (case.path(), ex["T"])
                 add("C15", "calls_mismatch", "%s: calls per thread %s, effective options %s give %s" % (where, r["calls"], ex["eff"], exp_calls))
                 add("C03", "calls_mismatch_e2e", "%s: calls per thread %s, options give %s" % (where, r["calls"], exp_calls))
+                if "ss" not in ex["eff"] and it.action == "bench":
+                    # the sample size was chosen by tuning: every benchmark, argument case and thread count starts again from 1
+                    add("C19", "tuned_calls_e2e", "%s: %s calls per thread with an automatic sample size, the doubling rule on this clock gives %s" % (where, r["calls"], exp_calls))
                 if any(k in ex["eff"] for k in ("xt", "mt", "sk")) and it.action == "bench":
                     add("C04", "rounds_e2e", "%s: %s calls per thread, the documented time rule with the effective options %s gives %s" % (where, r["calls"], ex["eff"], exp_calls))
 
